@@ -24,7 +24,7 @@ Create(c, sp, others, k) ==
       sf == IF sp = None THEN 0 ELSE ev[sp].fr
       ancN == [x \in Ids \cup {id} |-> IF x = id THEN A ELSE anc[x]]
       evT == [x \in Ids \cup {id} |-> IF x = id THEN [cr |-> c, sq |-> s, sp |-> sp, ps |-> ps, fr |-> 0] ELSE ev[x]]
-      fmax == MaxAllowed(evT, ancN, A, sf)
+      fmax == IF sp = None THEN MaxAllowedNoSp(evT, ancN, A) ELSE MaxAllowed(evT, ancN, A, sf)
   IN /\ id \notin Ids
      /\ \E f \in (IF LazyFrames /\ sp # None THEN sf..fmax ELSE {fmax}) :
           LET evN == [evT EXCEPT ![id].fr = f] IN
@@ -83,6 +83,8 @@ StateJson == [w |-> W,
 EmitState == PrintT(<<"EDGE", ToJson(StateJson)>>)
 EmitFull == Cardinality(Ids) = MaxEv => EmitState
 \* simulation targets: behaviours are cut (and the DAG emitted) where the interesting situation first appears
+\* one event elected Atropos of two consecutive frames (a root that passed several frames at once)
+NoRepeatedAtropos == (\A i \in 1..(Len(blocks) - 1) : blocks[i].atr # blocks[i + 1].atr) \/ (EmitState /\ FALSE)
 NoTie == ~HasTie(ev, anc) \/ (EmitState /\ FALSE)
 NoLateDecision == ~HasLateDecision(ev, anc) \/ (EmitState /\ FALSE)
 =============================================================================
